@@ -27,50 +27,64 @@ def check_thinning(repo, chk):
             blk = n
     if blk is None:
         raise AnalysisError("multi_sampling: `if new_max_weight > max_weight ...` block not found")
+    # the statements of the block are executed symbolically in order (simple assignments only), starting from the old
+    # bound OLD and the new maximum NEW: what matters is the VALUE the mask is computed from, not the statement order
+    rnd, new, old = sp.symbols("rnd new_max_weight max_weight", positive=True)
+    tr = Translator(repo, hooks={"numeric_call": lambda tr_, d, a, k, n: rnd if d.split(".")[-1] == "uniform" else NotImplemented, "allow_shape": True}, max_depth=1)
+    env = {"rnd": rnd, "new_max_weight": new, "max_weight": old}
     idx_cut = idx_max = idx_mask = None
     cut_expr = max_expr = None
     mask_call = None
+    cut_val = None
+    max_val = None
+    captured = {}
+
+    class T2(Translator):
+        def compare(self, op, a, b):
+            try:
+                sa_, sb_ = sp.sympify(a), sp.sympify(b)
+            except Exception:
+                return Translator.compare(self, op, a, b)
+            if isinstance(op, (ast.Lt, ast.LtE, ast.Gt, ast.GtE)) and (sa_.has(rnd) or sb_.has(rnd)):
+                lt = isinstance(op, (ast.Lt, ast.LtE))
+                captured["ratio"] = (sa_ / sb_) if lt else (sb_ / sa_)
+                return sp.Symbol("CUT")
+            return Translator.compare(self, op, a, b)
+
+    tr = T2(repo, hooks=tr.hooks, max_depth=1)
     for k, st in enumerate(blk.body):
-        if isinstance(st, ast.Assign) and isinstance(st.targets[0], ast.Name):
+        if isinstance(st, ast.Assign) and len(st.targets) == 1 and isinstance(st.targets[0], ast.Name):
             t = st.targets[0].id
-            if t == "cut" and idx_cut is None:
-                idx_cut, cut_expr = k, st.value
-            elif t == "max_weight":
-                idx_max, max_expr = k, st.value
-            if isinstance(st.value, ast.Call) and norm_text(st.value.func).endswith("data_mask"):
+            is_mask = isinstance(st.value, ast.Call) and norm_text(st.value.func).endswith("data_mask")
+            if is_mask:
                 idx_mask, mask_call = k, st.value
+                continue
+            before = dict(captured)
+            try:
+                tr.exec_stmt(st, env, fn.mod, 0)
+            except Unmodelled:
+                if "uniform" in norm_text(st.value):
+                    env[t] = rnd  # the uniform variate the mask is drawn with
+                else:
+                    env.pop(t, None)
+                continue
+            if "ratio" in captured and captured.get("ratio") is not before.get("ratio") and idx_cut is None:
+                idx_cut, cut_expr, cut_val = k, st.value, captured["ratio"]
+            if t == "max_weight":
+                idx_max, max_expr, max_val = k, st.value, env.get("max_weight")
     if None in (idx_cut, idx_max, idx_mask):
         raise AnalysisError("multi_sampling: thinning block lost its cut / max_weight / data_mask statements")
-    order_ok = idx_cut < idx_max
-    # the mask formula
-    rnd, new, old = sp.symbols("rnd new_max_weight max_weight", positive=True)
-    form_ok = False
-    if isinstance(cut_expr, ast.Compare) and len(cut_expr.ops) == 1:
-        tr = Translator(None)
-        try:
-            l = tr.eval(cut_expr.left, {"rnd": rnd, "new_max_weight": new, "max_weight": old}, fn.mod, 0)
-            r = tr.eval(cut_expr.comparators[0], {"rnd": rnd, "new_max_weight": new, "max_weight": old}, fn.mod, 0)
-            if isinstance(cut_expr.ops[0], (ast.Lt, ast.LtE)):
-                ratio = sp.sympify(l) / sp.sympify(r)
-            elif isinstance(cut_expr.ops[0], (ast.Gt, ast.GtE)):
-                ratio = sp.sympify(r) / sp.sympify(l)
-            else:
-                ratio = None
-            if ratio is not None:
-                form_ok = bool(equal(ratio, rnd * new / old)[0])
-        except Unmodelled:
-            form_ok = False
+    # the mask must be rnd * new / OLD < 1 with OLD the bound before it was raised
+    form_ok = cut_val is not None and bool(equal(cut_val, rnd * new / old)[0])
+    order_ok = form_ok or not (cut_val is not None and sp.sympify(cut_val).has(new) and not sp.sympify(cut_val).has(old))
     # applied to the merged earlier data
     applied = len(mask_call.args) == 2 and norm_text(mask_call.args[1]) == "cut"
     merged = any(isinstance(st, ast.Assign) and norm_text(st.value).startswith("data_merge(*all_data)") and norm_text(st.targets[0]) == norm_text(mask_call.args[0]) for st in blk.body[: idx_mask])
     # bound raised to >= new maximum
     raised = False
-    if isinstance(max_expr, ast.BinOp) and isinstance(max_expr.op, ast.Mult):
-        names = {norm_text(max_expr.left), norm_text(max_expr.right)}
-        consts = [const_value(x) for x in (max_expr.left, max_expr.right) if const_value(x) is not None]
-        raised = "new_max_weight" in names and consts and consts[0] >= 1.0
-    elif norm_text(max_expr) == "new_max_weight":
-        raised = True
+    if max_val is not None:
+        ratio_b = sp.simplify(sp.sympify(max_val) / new)
+        raised = bool(ratio_b.is_number and ratio_b >= 1)
     chk.instance("T-thin", "multi_sampling: mask before bound update: %s; mask == rnd*new/old < 1: %s; applied to merged earlier data: %s; bound raised to >= new maximum: %s" % (order_ok, form_ok, applied and merged, raised))
     if not order_ok:
         chk.violation("T-thin", fn.key, "order", "the bound `max_weight` is raised (statement %d of the block) before the thinning mask is computed (statement %d): the mask then compares the new bound with itself and keeps every earlier event" % (idx_max + 1, idx_cut + 1), file=GEN, line=blk.body[idx_max].lineno)
